@@ -65,6 +65,10 @@ def judge_one(mon: Mon, S, cc, bban, table, tag):
     if o_flag.ok != o_val.ok or o_flag.ok != o_bb.ok:
         mon.viol("entry_points_disagree", w, o_flag.brief(), [o_val.brief(), o_bb.brief()])
     judge.repeated_validation_consistent(mon, text, o_flag, w)
+    for form, arg in (("str", bban), ("BBAN", S.BBAN(cc, bban))):
+        ofb = observe(S.IBAN.from_bban, cc, arg, validate_bban=True)
+        if ofb.ok != o_flag.ok:
+            mon.viol(f"from_bban_with_flag_disagrees:{form}", w, o_flag.brief(), ofb.brief())
     if o_bb.ok and o_bb.value is not True:
         mon.viol("bban_check_success_not_true", w, True, o_bb.brief())
     if o_val.ok and o_val.value is not True:
